@@ -170,6 +170,9 @@ class CliHarness:
         if any(n.startswith("disc#") and w.pending(n) for n in w.tasks):
             # the caller gives up on a graceful disconnect() that has not returned yet (its own timeout, a cancelled task)
             base.append("cancel_disc")
+        if w.inflight:
+            # the caller gives up on a connect phase that has not returned yet: one more way for an attempt to fail
+            base.append("cancel_attempt")
         if w.alive or any(k in ("finish", "connect") for k in w.inflight.values()):
             # a redundant finish_connection(): the session is alive, or the second connect phase is already running
             base.append("refinish")
@@ -213,6 +216,8 @@ class CliHarness:
                 w.spawn(name, lambda: w.client.disconnect())
             else:
                 w.spawn(name, lambda: w.client.disconnect(force=True))
+        elif label == "cancel_attempt":
+            w.cancel(next(n for n in w.tasks if n in w.inflight and w.pending(n)))
         elif label == "cancel_disc":
             w.cancel(next(n for n in w.tasks if n.startswith("disc#") and w.pending(n)))
         elif label in WORK:
